@@ -137,6 +137,7 @@ func (fr *Frame) applyCall(instr ssa.Instruction, cc *ssa.CallCommon, recv Val, 
 		return st2
 	}
 	key := funcKey(callee)
+	fr.checkParamInv(callee, args, st)
 	if callee.Signature.Recv() != nil && isPointer(callee.Signature.Recv().Type()) && len(args) > 0 && len(args[0].L) > 0 && callee.Synthetic == "" {
 		fr.oblige(st, "nil", "recv "+exprLabel(fr, cc.Args[0])+"."+callee.Name(), Ne(args[0].L[0], Int(0)), pos)
 	}
@@ -192,17 +193,13 @@ func (fr *Frame) canInline(callee *ssa.Function) bool {
 			return false
 		}
 	}
-	// functions with loops need contracts/invariants; inline only loop-free ones
+	// Loops inside inlined callees are cut like any other loop; only invariants
+	// already proved in the callee's own verification are assumed there.
 	n := 0
 	for _, b := range callee.Blocks {
 		n += len(b.Instrs)
-		for _, s := range b.Succs {
-			if s.Dominates(b) {
-				return false
-			}
-		}
 	}
-	return n <= 400
+	return n <= 1500
 }
 
 // havocCall models a call about which only its mod-set is known.
@@ -293,6 +290,9 @@ func (fr *Frame) builtin(b *ssa.Builtin, cc *ssa.CallCommon, args []Val, st *Sta
 		return st, nil
 	case "print", "println":
 		return st, nil
+	case "ssa:wrapnilchk":
+		fr.oblige(st, "nil", "wrapnilchk "+exprLabel(fr, cc.Args[0]), Ne(args[0].L[0], Int(0)), instr.Pos())
+		return st, []Val{args[0]}
 	case "min", "max":
 		if len(args) == 2 && len(args[0].L) == 1 && args[0].L[0].Sort == SInt && !isFloat(args[0].T) {
 			a, bb := args[0].one(), args[1].one()
@@ -328,7 +328,7 @@ func (fr *Frame) doAppend(cc *ssa.CallCommon, args []Val, st *State, instr ssa.I
 	rarr := ex.vc.define("apparr", Ite(inPlace, arr, fresh))
 	roff := ex.vc.define("appoff", Ite(inPlace, off, Int(0)))
 	ncap := ex.vc.fresh("appcap", SInt)
-	ex.vc.assert(And(Ge(ncap, newLen), Le(ncap, pow2(48))))
+	ex.vc.assert(And(Ge(ncap, newLen), Le(ncap, Int(maxElems(t)))))
 	rcap := ex.vc.define("appcap", Ite(inPlace, cp, ncap))
 	fam := "A"
 	if isStruct(et) {
@@ -672,4 +672,26 @@ func (fr *Frame) applyGhost(anchor string, st *State) *State {
 		env.assignGhost(g.LHS, g.RHS)
 	}
 	return st
+}
+
+
+// checkParamInv emits the per-type parameter invariants at a static call site.
+func (fr *Frame) checkParamInv(callee *ssa.Function, args []Val, st *State) {
+	ex := fr.ex
+	if !ex.P.inRepo[callee] {
+		return
+	}
+	for i, p := range callee.Params {
+		if i >= len(args) {
+			break
+		}
+		cls := ex.P.db.ParamInv[typeName(p.Type())]
+		for _, cl := range cls {
+			env := ex.newEnv(st, st, fr)
+			env.pkg = contractPkgOf(typeName(p.Type()))
+			env.vars["this"] = args[i]
+			lbl := cl.Label
+			fr.oblige(st, "pre", fmt.Sprintf("%s/param %s/%s", funcKey(callee), p.Name(), lbl), safeEval(env, cl), 0)
+		}
+	}
 }
